@@ -358,11 +358,17 @@ def pilot(elfi, spec, n=80, seed=12345):
 
 def gen_seed(tape):
     """Master seed of a workload; 0 is a legal seed like any other (and falsy)."""
-    return 0 if tape.chance('seed_zero', 1, 10) else tape.int('seed', 1, 2 ** 20)
+    if tape.chance('seed_zero', 1, 10):
+        return 0
+    seed = tape.int('seed', 1, 2 ** 20)
+    if tape.chance('numpy_typed_seed', 1, 8):
+        # np.int32 / np.uint32 seeds are accepted like Python ints (RandomStateLoader)
+        seed = tape.choice('seed_type', [np.int32, np.uint32])(seed)
+    return seed
 
 
 def gen_rejection_workload(tape, spec, pil, extra_outputs=True, allow_threshold=True,
-                           extras_optional=False):
+                           extras_optional=False, allow_default=False):
     bs = tape.int('batch_size', 1, 12)
     n = tape.int('n_samples', 1, 20)
     wl = {'method': 'rejection', 'batch_size': bs, 'seed': gen_seed(tape),
@@ -381,7 +387,11 @@ def gen_rejection_workload(tape, spec, pil, extra_outputs=True, allow_threshold=
         wl['target_form'] = 'node'      # Rejection(model['d'], ...) instead of (model, 'd', ...)
     modes = ['n_sim', 'quantile'] + (['threshold'] if allow_threshold and len(pil) >= 5 else [])
     mode = tape.choice('objective', modes)
-    if mode == 'n_sim':
+    if allow_default and n <= 2 and tape.chance('default_objective', 1, 10):
+        # sample(n) without any objective: documented default quantile 0.01
+        wl['objective'] = {}
+        wl['default_quantile'] = 0.01
+    elif mode == 'n_sim':
         wl['objective'] = {'n_sim': n + tape.int('n_sim_extra', 0, 40)}
     elif mode == 'quantile':
         q = tape.choice('quantile', [1.0, 0.5, 0.3, 0.1, 0.07])
